@@ -41,16 +41,27 @@ type replayFile struct {
 type replayIndexEntry struct {
 	Template string            `json:"template"`
 	Vars     map[string]string `json:"vars"`
+	Kinds    []string          `json:"kinds"` // obligation-kind prefixes this template can replay (empty: all)
 }
 
 // templateFor finds the replay template of a function: /verif/replay/index.json maps function names to
 // shared templates (with constant template variables); otherwise <sanitized name>.go.tmpl.
-func templateFor(fn string) (string, map[string]string) {
+func templateFor(fn string, kind string) (string, map[string]string) {
 	if b, err := os.ReadFile(filepath.Join(verifDir, "replay", "index.json")); err == nil {
-		idx := map[string]replayIndexEntry{}
-		if json.Unmarshal(b, &idx) == nil {
-			if e, ok := idx[fn]; ok {
-				return filepath.Join(verifDir, "replay", e.Template), e.Vars
+		idx := map[string][]replayIndexEntry{}
+		if err := json.Unmarshal(b, &idx); err == nil {
+			for _, e := range idx[fn] {
+				if len(e.Kinds) == 0 {
+					return filepath.Join(verifDir, "replay", e.Template), e.Vars
+				}
+				for _, k := range e.Kinds {
+					if strings.HasPrefix(kind, k) {
+						return filepath.Join(verifDir, "replay", e.Template), e.Vars
+					}
+				}
+			}
+			if _, ok := idx[fn]; ok {
+				return "", nil
 			}
 		}
 	}
@@ -97,7 +108,7 @@ func writeReplay(dir, prop string, r *FuncResult, o *Obligation) ReplayResult {
 	}
 	rf.Witness = wit
 	res := ReplayResult{Path: path}
-	tp, tvars := templateFor(r.Func)
+	tp, tvars := templateFor(r.Func, o.Kind)
 	if tb, err := os.ReadFile(tp); err == nil && len(o.Model) > 0 {
 		rf.Template = tp
 		// the template may state which models it can replay ("// prefer: <expr over the entry state>")
